@@ -327,7 +327,12 @@ const char* utap_msg(const char *msg)
     kind_t kind;
     char string[MAXLEN];
     double floating;
+    int quantifier;
 }
+
+/* A quantifier that the parser discards while it recovers from a syntax error never reaches its end action:
+   close the scope that its begin action opened. */
+%destructor { ch->expr_quantifier_abandon(); } <quantifier>
 
 /* Expect 1 shift/reduce warning in dangling ELSE part of IF statement. */
 /* Expect 2 shift/reduce warning between E[ .. ] smc property & NonTypeId E to build expr. */
@@ -1322,18 +1327,21 @@ Expression:
         | Expression T_MAX Expression {
             CALL(@1, @3, expr_binary(MAX));
         }
-        | T_SUM '(' Id ':' Type ')' {
+        | T_SUM '(' Id ':' Type ')' <quantifier>{
             CALL(@1, @6, expr_sum_begin($3));
+            $$ = 0;
         } Expression {
             CALL(@1, @8, expr_sum_end($3));
         } %prec T_SUM
-	    | T_FORALL '(' Id ':' Type ')' {
+	    | T_FORALL '(' Id ':' Type ')' <quantifier>{
             CALL(@1, @6, expr_forall_begin($3));
+            $$ = 0;
         } Expression {
             CALL(@1, @8, expr_forall_end($3));
         } %prec T_FORALL
-        | T_EXISTS '(' Id ':' Type ')' {
+        | T_EXISTS '(' Id ':' Type ')' <quantifier>{
             CALL(@1, @6, expr_exists_begin($3));
+            $$ = 0;
         } Expression {
             CALL(@1, @8, expr_exists_end($3));
         } %prec T_EXISTS
@@ -1355,27 +1363,31 @@ DynamicExpression:
 	    CALL(@3,@3, expr_identifier($3));
 	    CALL(@1,@4, expr_numof());
 	}
-        | T_FORALL '(' Id ':' NonTypeId {
+        | T_FORALL '(' Id ':' NonTypeId <quantifier>{
 	    CALL(@1,@5, expr_identifier($5));
 	    CALL(@1,@5, expr_forall_dynamic_begin($3,$5));
+	    $$ = 0;
 	} ')'  '(' Expression ')'   {
 	    CALL(@1,@8, expr_forall_dynamic_end($3));
 	}
-        | T_EXISTS '(' Id ':' NonTypeId {
+        | T_EXISTS '(' Id ':' NonTypeId <quantifier>{
 	    CALL(@1,@5, expr_identifier($5));
 	    CALL(@1,@5, expr_exists_dynamic_begin($3,$5));
+	    $$ = 0;
 	} ')' '(' Expression ')'  {
 	    CALL(@1,@8, expr_exists_dynamic_end($3));
 	}
-        | T_SUM '(' Id ':' NonTypeId {
+        | T_SUM '(' Id ':' NonTypeId <quantifier>{
 	    CALL(@1,@5, expr_identifier($5));
 	    CALL(@1,@5, expr_sum_dynamic_begin($3,$5));
+	    $$ = 0;
 	} ')' Expression   {
 	    CALL(@1,@8, expr_sum_dynamic_end($3));
 	}
-        | T_FOREACH '(' Id ':' NonTypeId {
+        | T_FOREACH '(' Id ':' NonTypeId <quantifier>{
 	    CALL(@1,@5, expr_identifier($5));
 	    CALL(@1,@5, expr_foreach_dynamic_begin($3,$5));
+	    $$ = 0;
 	} ')' Expression   {
 	    CALL(@1,@8, expr_foreach_dynamic_end($3));
 	}
